@@ -562,13 +562,36 @@ fn small_checks(o: &Opts, rep: &mut Report, rng: &mut Rng, model: &mut Model) {
 }
 
 /// loaders on damaged/odd files: every delivery must give the outcome and the (partially loaded) machine of the
-/// whole-buffer delivery. case text: `load m128=<0|1> kind=<0 sna|1 scr> cut=<len> deliv=<...>`
+/// whole-buffer delivery. case text: `load m128=<0|1> kind=<0 sna|1 scr|2 rom set|3 szx> cut=<len> deliv=<...>`
 fn loader_files(m128: bool, kind: u8) -> Vec<u8> {
     let (code, _) = diag_program();
     match (kind, m128) {
         (0, false) => sna48(&code, 0x8000, 0x8000, 0xBD00, 0x5C3A, 21),
         (0, true) => sna128(&code, 0x8000, 0x8000, 0xBD00, 0x5C3A, 23),
+        // a host ROM set: one 16K page (48K) or two (128K), delivered page by page
+        (2, _) => Rng::new(79).bytes(if m128 { 32768 } else { 16384 }),
+        // an SZX with register chunks and several stored (uncompressed) RAM pages
+        (3, _) => {
+            let mut seed = 1000u64;
+            loop {
+                let spec = crate::c14::random_szx(&mut Rng::new(seed), m128);
+                let raw = spec.order.iter().filter(|c| matches!(c, crate::c14::Ck::Ramp(_, crate::c14::Comp::Raw))).count();
+                if raw >= 2 && spec.order.contains(&crate::c14::Ck::Z80r) {
+                    return spec.encode().0;
+                }
+                seed += 1;
+            }
+        }
         _ => Rng::new(77).bytes(6912),
+    }
+}
+
+fn kind_name(kind: u8) -> &'static str {
+    match kind {
+        0 => "sna",
+        2 => "rom",
+        3 => "szx",
+        _ => "scr",
     }
 }
 
@@ -585,7 +608,7 @@ fn loader_one(m128: bool, kind: u8, cut: usize, deliv: &Deliv, rep: &mut Report)
     let x = load_only(m128, kind, &file, deliv);
     let class = format!(
         "load/{}{}/{}/{}",
-        if kind == 0 { "sna" } else { "scr" },
+        kind_name(kind),
         if m128 { "128" } else { "48" },
         if cut == full.len() { "intact" } else if cut < full.len() { "truncated" } else { "oversize" },
         deliv.class()
@@ -597,7 +620,7 @@ fn loader_one(m128: bool, kind: u8, cut: usize, deliv: &Deliv, rep: &mut Report)
         if b != xx {
             rep.violation(Violation {
                 kind: Kind::SpecViolated,
-                key: format!("C16/load/{}/{}", if kind == 0 { "sna" } else { "scr" }, deliv.class()),
+                key: format!("C16/load/{}/{}", kind_name(kind), deliv.class()),
                 what: "a loader gives a different outcome or leaves a different machine when the same file bytes arrive through another asset".into(),
                 correspondence: "loader_chunking_independent on the real loaders".into(),
                 case: J::obj(vec![("text", J::s(format!("load m128={} kind={} cut={} deliv={}", m128 as u8, kind, cut, deliv.text())))]),
@@ -613,7 +636,7 @@ fn loader_one(m128: bool, kind: u8, cut: usize, deliv: &Deliv, rep: &mut Report)
 fn loader_checks(o: &Opts, rep: &mut Report, rng: &mut Rng) {
     for _ in 0..o.n(60, 3000) {
         let m128 = rng.bool();
-        let kind = if rng.chance(1, 4) { 1 } else { 0 };
+        let kind = match rng.below(8) { 0 | 1 => 1, 2 => 2, 3 | 4 => 3, _ => 0 };
         let len = loader_files(m128, kind).len();
         let cut = match rng.below(5) {
             0 => len,
